@@ -64,8 +64,26 @@ def accepted(stmt, sql, dialect):
         return None
     isig = ir.ir_signature(stmt)
     if isig is None:
+        if isinstance(stmt, ir.Noop):
+            # parse-shape guard for statements without tables in the signature: the dialect must read the text as a statement of
+            # that kind (tsql, for one, reads 'SHOW TABLES' as a procedure call): its statement type names the leading keyword
+            st_type = noop_statement_type(sql, dialect)
+            return st_type is not None and sql.split()[0].lower() in st_type
         return True
     return psig == isig
+
+
+def noop_statement_type(sql, dialect):
+    from vlib import rewrite
+
+    try:
+        tree = rewrite.linter(dialect).parse_string(sql).tree
+        seg = next(s for s in tree.segments if s.type in ("statement", "batch"))
+        while seg.type in ("statement", "batch"):
+            seg = seg.segments[0]
+        return seg.type
+    except Exception:  # noqa
+        return None
 
 
 def compare(expected, got):
@@ -152,6 +170,9 @@ KNOWN = {
 
 
 def _classify_cells(case, detail):
+    if case.get("dialect") == "exasol" and _form(case.get("sql", "")) == "CREATE TABLE ...LIKE" and detail.get("what") == "source tables differ" \
+            and detail.get("reported") == [] and not detail.get("extra"):
+        return "K-exasol-create-like@C01"
     if not _raises_unsupported(detail):
         return None
     if "cells" not in _state:
